@@ -17,7 +17,8 @@ RECHARS = "ab01_ mt"           # literal characters of generated regular express
 RESPECIAL = ".-()*+?|[]$^\\"    # written with a backslash in a regular expression: \. \( \\ ...
 TASKS = ["m.t", "n.t", "pkg.mod.task", "other.task", "plain", "m.u", "a.b.t"]
 HASHES = ["0a1b", "1c2d", "2e3f", "3a4b", "4c5d", "5e6f", "6a7b", "7c8d"]
-XPS = ["XA", "XB", "main", "exp1"]
+XPS = ["XA", "XB", "main", "exp1",
+       "X", "XAB", "exp", "exp10", "bert", "distilbert-v2", "main-2"]     # names that are parts of one another
 STATES = ["DONE", "ERROR", "RUNNING"]
 
 
@@ -185,7 +186,12 @@ def gen_ws(rng, small=False, links=False):
             lks.append(dict(task=t, hash=h, to=to))
         keys = sorted(set(keys) | {(l["task"], l["hash"]) for l in lks})
     xps = []
-    for name in rng.sample(XPS, rng.choice([0, 1, 1, 2, 2, 3])):
+    names = rng.sample(XPS, rng.choice([0, 1, 1, 2, 2, 3]))
+    if names and rng.random() < 0.4:          # two experiments whose names are parts of one another (bert / distilbert-v2)
+        rel = [n for n in XPS if n not in names and any(n in m or m in n for m in names)]
+        if rel:
+            names.append(rng.choice(rel))
+    for name in names:
         def subset():
             ks = [list(k) for k in keys if rng.random() < 0.45]
             if rng.random() < 0.15:                                  # an entry whose job directory is gone
@@ -387,7 +393,8 @@ def o_atom(a, j, lookup=lookup):
     cur = lookup(a["v"], j)
     if a["k"] == "eq":
         o = a["o"]
-        return cur == (lookup(o["var"], j) if "var" in o else o["const"])
+        # a missing tag equals nothing (not even another missing tag: `model = bm25` with the quotes forgotten)
+        return cur is not None and cur == (lookup(o["var"], j) if "var" in o else o["const"])
     if a["k"] == "in":
         return cur is not None and cur in a["l"]
     if a["k"] == "notin":
@@ -681,6 +688,8 @@ def blame(case, ans, k=None):
         else:
             v = r["verdicts"].get(f"{k[0]}/{k[1]}")
             if v is None or v != o_atom(a, jobs[k]):
+                if a["k"] == "eq" and lookup(a["v"], jobs[k]) is None and v is True:
+                    return "eq-missing-tags"
                 if a["k"] == "regex" and lookup(a["v"], jobs[k]) == "":
                     return "empty-value"
                 if numeric_tag(a, jobs[k]):
@@ -728,7 +737,11 @@ def oracle(case, ans):
             elif r["v"] != want:
                 atom_ok = False
                 if r["v"] != o_atom(a, j, impl_lookup):     # not explained by the state alone
-                    if a["k"] == "regex" and lookup(a["v"], j) == "":
+                    if a["k"] == "eq" and lookup(a["v"], j) is None and r["v"] is True:
+                        out.append(("C19:filter:eq-missing-tags",
+                                    "`a = b` answers True for a job that has neither tag (None == None): with the quotes "
+                                    "forgotten, `model = bm25` selects every job without a model tag"))
+                    elif a["k"] == "regex" and lookup(a["v"], j) == "":
                         out.append(("C19:filter:regex-empty-value",
                                     "a `~` test on a tag whose value is the empty string answers False although the "
                                     "regular expression matches the empty string"))
@@ -1079,7 +1092,11 @@ def run(c: Check):
         if rng.random() < 0.65:
             e = gen_expr(rng, rng.choice(w["jobs"]) if w["jobs"] else gen_job(rng))
         r = rng.random()
-        exp = None if r < 0.45 else (rng.choice(w["xps"])["name"] if w["xps"] and r < 0.9 else rng.choice(XPS + [""]))
+        exp = None if r < 0.45 else (rng.choice(w["xps"])["name"] if w["xps"] and r < 0.8 else rng.choice(XPS + [""]))
+        if exp and w["xps"] and rng.random() < 0.35:
+            # a name that is a proper part (prefix, suffix, inside) of the name of an experiment of the workspace, or contains it
+            longer = [n for n in XPS for x in w["xps"] if n != x["name"] and (n in x["name"] or x["name"] in n)]
+            exp = rng.choice(longer) if longer else exp
         cases.append(dict(kind="clean", ws=w, experiment=exp, expr=e, perform=rng.random() < 0.75,
                           flags=[f for f in ("--tags", "--fullpath", "--ready") if rng.random() < 0.15], **gen_access(rng)))
         if rng.random() < 0.2:                   # the filter is a text near the grammar
@@ -1149,6 +1166,10 @@ def run(c: Check):
             if kind == "clean":
                 c.count("clean:perform=" + str(case["perform"]))
                 c.count("clean:experiment=" + ("none" if not case["experiment"] else "given"))
+                if case["experiment"] and any(x["name"] != case["experiment"] and
+                                              (case["experiment"] in x["name"] or x["name"] in case["experiment"])
+                                              for x in w["xps"]):
+                    c.count("clean:experiment-name-part-of-another")
                 c.count("clean:blocked=" + str(any(x["bak"] is not None for x in w["xps"]) and not case["perform"]))
                 nt = len(w["jobs"]) >= 2 and (e is not None or case["experiment"])
             else:
